@@ -79,6 +79,17 @@ def export_crashes(ctx):
         events.append({"ev": "reset", "run": k})
         events.append({"ev": "crash", "step": step, "path_exists": exists, "content": content, "old": old,
                        "new": new, "tmp_exists": os.path.exists(os.path.join(d, "export.tmp"))})
+        # the tracker is restarted after the crash and exports a smaller swarm into the same directory:
+        # leftovers of the interrupted export must not leak into the new file
+        p2 = subprocess.run([hbin("udp_export"), d, "1", "0", "single"], stdout=subprocess.PIPE,
+                            stderr=subprocess.PIPE, text=True, timeout=60)
+        if "SINGLE-EXPORT-DONE" not in p2.stdout:
+            raise ToolError("follow-up export failed: " + p2.stderr[-200:])
+        exists2, content2 = read_export(os.path.join(d, "export.txt"))
+        events.append({"ev": "reset", "run": 100 + k})
+        events.append({"ev": "crash", "step": "export_after_crash_at_" + step, "path_exists": exists2,
+                       "content": content2, "old": [[4, 1, 1, 0]], "new": [[4, 1, 1, 0]],
+                       "tmp_exists": os.path.exists(os.path.join(d, "export.tmp"))})
     # reader during non-crashing exports of a large swarm
     d = ctx.path("export_reader")
     os.makedirs(d, exist_ok=True)
@@ -212,6 +223,12 @@ def run(ctx):
     t2 = execute(ctx, "udp_exec", rb, "random")
     acc2, f2 = validate_and_report(ctx, "UdpRef_Trace", "UdpRef_Trace.cfg", t2, "random",
                                    classify, rb, env=ENV)
+    # the same with per-client statistics off (the default): totals and export must not depend on that option
+    rb2 = U.random_behaviours(ctx.seed + 21, nruns // 2, nops, time_bias=True, first_run=200000)
+    for b in rb2:
+        b["cfg"]["peer_clients"] = False
+    t3 = execute(ctx, "udp_exec", rb2, "random_noclients")
+    validate_and_report(ctx, "UdpRef_Trace", "UdpRef_Trace.cfg", t3, "random_noclients", classify, rb2, env=ENV)
     if not f1:
         binding_selftest(ctx, "UdpRef_Trace", "UdpRef_Trace.cfg", t1, mutate_tally, env=ENV)
         binding_selftest(ctx, "UdpRef_Trace", "UdpRef_Trace.cfg", t1, mutate_export,
